@@ -203,6 +203,32 @@ pub fn run(prop: &'static str, tier: &str) -> i32 {
         all.merge(a);
     }
 
+    // phase 4b: texts that sanitisation / normalisation shortcuts damage, as message, as footer, as assertion
+    {
+        let units: Vec<(Proto, Layer)> = protos.iter().flat_map(|p| Layer::ALL.iter().map(move |l| (*p, *l))).collect();
+        let accs = par_units(&units, |(p, l)| {
+            let al = full_alphabet(*p, true);
+            let mut acc = Acc::default();
+            let seed = if p.is_local() { Some(al.seeds[2].as_slice()) } else { None };
+            for h in domains::hostile_texts() {
+                let plain = domains::message(17, 0);
+                let cases = [
+                    IssueCase::new(*p, *l, &al.keys[0], seed, &h, &None, &None),
+                    IssueCase::new(*p, *l, &al.keys[0], seed, &plain, &Some(h.clone()), &None),
+                    IssueCase::new(*p, *l, &al.keys[0], seed, &plain, &Some("f".into()), &Some(h.clone())),
+                ];
+                for c in cases.iter().take(if p.has_assertion() { 3 } else { 2 }) {
+                    evaluate(c, &mut acc, prop);
+                    acc.choice_points += 1;
+                }
+            }
+            acc
+        });
+        let a = Acc::merge_all(accs);
+        phases.push(json!({"phase": "hostile texts as message / footer / assertion", "executions": a.executions}));
+        all.merge(a);
+    }
+
     // phase 5: object reuse - one builder building several tokens while being reconfigured, one parser
     // parsing several tokens while being reconfigured / handed different keys: every authentic presentation
     // must still be accepted with the original content
